@@ -61,7 +61,7 @@ def render(toks):
 # ---------------------------------------------------------------------------
 # (a) grammar corpus
 # ---------------------------------------------------------------------------
-CL_VALUES = [None, b"0", b"3", b"03"]
+CL_VALUES = [None, b"0", b"1", b"3", b"03"]
 TE_VALUES = [None, [b"chunked"], [b"Chunked"], [b"gzip, chunked"], [b"chunked, gzip"], [b"identity"], [b"chunked", b"chunked"]]
 CONN_VALUES = [None, b"close", b"keep-alive"]
 FILLERS = ["none", "obs-fold", "cl-alias", "te-alias", "repeat"]
@@ -114,6 +114,9 @@ def corpus_messages(tier):
                 yield label + (tuple(ch), ext, tr), message(b"POST", b"/p", ver, fields, chunked_body(ch, ext, tr))
         elif cl in (b"3", b"03"):
             yield label, message(b"POST", b"/p", ver, fields, b"abc")
+        elif cl == b"1":
+            # the smallest body there is: its single byte must not be read as the start of the next message
+            yield label, message(b"POST", b"/p", ver, fields, b"G")
         else:
             yield label, message(b"GET", b"/g", ver, fields, None)
     # request-line variety with simple framing
